@@ -119,6 +119,28 @@ def observed_distribution(cases, impl):
     return dict(c)
 
 
+def hypothesis_counts(cases, model):
+    """The Lean driver evaluates the VERIFIED Boolean checkers of the theorem hypotheses (Props/ScriptWF.lean) on the
+    program table of every build case (`m: hyp ...` line).  Counts per stream: to how many of the generated cases the
+    theorems about the model apply literally (C01_scripts: wf & total; C01_scripts_free: free & total;
+    C02_scripts_idempotent / C03_scripts / C01_scripts_mixed: wf & total & nofail; C20_scripts_no_abort: static)."""
+    import collections
+    out = collections.defaultdict(lambda: collections.Counter())
+    for c in cases:
+        if c.kind != "build": continue
+        hyp = [l for l in model.get((c.kind, c.cid), []) if l.startswith("m: hyp ")]
+        st = c.meta.get("stream", "corpus")
+        out[st]["cases"] += 1
+        if not hyp: continue
+        f = dict(kv.split("=") for kv in hyp[-1].split(" ")[2:])
+        b = {k: v == "1" for k, v in f.items()}
+        if b["wf"] and b["total"]: out[st]["C01_scripts applies (wfB, stampTotalB)"] += 1
+        if b["free"] and b["total"]: out[st]["C01_scripts_free applies (wfFreeB, stampTotalB)"] += 1
+        if b["wf"] and b["total"] and b["nofail"]: out[st]["C02_scripts_idempotent/C03_scripts/C01_scripts_mixed apply (wfB, stampTotalB, noFailB)"] += 1
+        if b["static"]: out[st]["C20_scripts_no_abort applies (staticRolesB)"] += 1
+    return {k: dict(v) for k, v in out.items()}
+
+
 def replay_path(prop, seed, n):
     return os.path.join(V.VERIF, "replays", f"{prop}-{seed}-{n}.json")
 
@@ -185,6 +207,7 @@ def main():
     stats["depth_factor"] = V.depth_factor()   # 1 on the calibrated tree, 4 when /repo's library sources differ from it
     impl, model = run_both(cases)
     dis, ora = evaluate(prop, cfg, cases, impl, model)
+    stats["verified_hypotheses"] = hypothesis_counts(cases, model)
     # independent replays of every history in fresh processes (fresh hash seeds): the implementation must reproduce
     # its own observations exactly (C16)
     nrep_runs = cfg.get("replays", {}).get(tier, 0)
